@@ -18,7 +18,10 @@ def _case(draw, thorough):
     pp = draw(st.sampled_from([1, 1, 1, 2]))
     if pp * dp * mp > 12:
         pp = 1
-    return {'pipe': pp, 'data': dp, 'model': mp, 'blocks': blocks, 'h': h, 'f': f, 'accum': draw(st.sampled_from([1, 1, 2])),
+    accum = draw(st.sampled_from([1, 1, 2, 3]))
+    # micro-batches of one accumulation window may have different numbers of rows (each contributes its own mean second moment)
+    sizes = draw(st.lists(st.integers(1, 4), min_size=accum, max_size=accum)) if accum > 1 and draw(st.booleans()) else None
+    return {'pipe': pp, 'data': dp, 'model': mp, 'blocks': blocks, 'h': h, 'f': f, 'accum': accum, 'sizes': sizes,
             'bias': [[draw(st.booleans()), draw(st.booleans())] for _ in range(blocks)],
             'seed': draw(st.integers(0, 9999)), 'N': draw(st.integers(1, 3)),
             'cap': draw(st.sampled_from([0, 1e-5, 25.0])), 'in_hook': draw(st.booleans()), 'prediv': False,
